@@ -1,7 +1,7 @@
 (** C03 — a cache hit returns what recomputation would return. Statements only.
     Model: Model/CacheX.v ([serveX]/[runX]: kvarn::handle_cache with streams, body sizes, the status filter, override
     URIs and the repaired code paths); [_refuted]: witnesses on the model of the code before a repair. *)
-From KV Require Import Bytes RustInt Range CacheControl Cache CacheProofs Fixture CacheX CacheXProofs CacheXWitness.
+From KV Require Import Bytes RustInt Range CacheControl Cache CacheProofs Fixture CacheX CacheXProofs CacheXWitness CacheKey CacheKeyProofs.
 Open Scope N_scope.
 
 Section C03.
@@ -62,6 +62,77 @@ Section C03.
                    (qmx (v_resp v) = true -> path_query (lookup_req r1 ov1) = path_query lr).
   Proof. exact (hit_same_class_x vary_tuple cf). Qed.
 End C03.
+
+(** ---- the keys separate URIs ([UriKey] / [PathQuery], src/comprash.rs) ----
+    What the cache compares ([key_eqb] = the derived PartialEq/Eq/Hash of [UriKey] and [PathQuery]) on the keys made
+    from two URIs: PathQuery keys are equal exactly when path AND query are equal ([eff_query]: an empty query is no
+    query, as [PathQuery::query] documents) — the position of the boundary keeps "/a"+"b" and "/ab" apart —, Path
+    keys exactly when the paths are equal, and a Path key never equals a PathQuery key. *)
+Theorem key_injective : forall r r',
+  (key_eqb (key_pq r) (key_pq r') = true <-> rq_path r = rq_path r' /\ eff_query r = eff_query r') /\
+  (key_eqb (key_p r) (key_p r') = true <-> rq_path r = rq_path r') /\
+  key_eqb (key_p r) (key_pq r') = false /\ key_eqb (key_pq r) (key_p r') = false.
+Proof. exact key_eqb_uri. Qed.
+
+(** ... and the boundary position is needed for it: "/a?b" and "/ab" have the same concatenation, a comparison of
+    [string] alone (the seeded change C03-3) identifies them although their paths differ. *)
+Theorem query_start_needed :
+  let r := rq_get (B "/a") (Some (B "b")) in let r' := rq_get (B "/ab") None in
+  fst (path_query r) = fst (path_query r') /\ key_eqb_string_only (key_pq r) (key_pq r') = true /\
+  key_eqb (key_pq r) (key_pq r') = false /\ rq_path r <> rq_path r'.
+Proof. exact query_start_needed_w. Qed.
+
+Example c03_ex_keys_apart :
+  key_eqb (key_pq (rq_get (B "/x/y") (Some (B "z=1")))) (key_pq (rq_get (B "/x/yz=1") None)) = false /\
+  key_eqb (key_pq (rq_get (B "/a") (Some (B "")))) (key_pq (rq_get (B "/a") None)) = true /\
+  key_eqb (key_pq (rq_get (B "/a") (Some (B "bc")))) (key_pq (rq_get (B "/ab") (Some (B "c")))) = false.
+Proof. vm_compute. repeat split. Qed.
+
+(** [cache_transparent] and [cache_hit_same_class] with the handler contract and the conclusion stated with the path
+    and the query of the URI instead of [path_query] (by [key_injective]). *)
+Section C03uri.
+  Variable hstate : Type.
+  Variable compute : hstate -> request -> option (bytes * option bytes) -> bool -> fatx * hstate * list bytes.
+  Variable ims_on : bool.
+  Variable fix_clear : bool.
+  Variable sfilter : N -> bool.
+  Variable parse_ims : bytes -> option Z.
+  Variable sanitize_ok : request -> bool.
+  Variable prime : request -> request.
+  Variable override : request -> option (bytes * option bytes).
+  Variable negotiate : request -> fatx -> option (N * bytes).
+  Variable vary_tuple : request -> option (bytes * option bytes) -> tuple.
+  Variable vary_header : request -> option (bytes * option bytes) -> fatx -> list (bytes * bytes).
+  Variable clear_alias : request -> option request.
+  Variable cf : request -> option (bytes * option bytes) -> bool -> fatx.
+  Hypothesis Hpure : forall hs r ov ok, fst (fst (compute hs r ov ok)) = cf r ov ok.
+  Hypothesis contract_uri : forall r ov r' ov',
+    get_or_head (rq_method r) = true -> get_or_head (rq_method r') = true ->
+    vary_tuple r ov = vary_tuple r' ov' -> rq_path (lookup_req r ov) = rq_path (lookup_req r' ov') ->
+    (qmx (cf r ov true) = true -> eff_query (lookup_req r ov) = eff_query (lookup_req r' ov')) ->
+    cf r ov true = cf r' ov' true.
+  Hypothesis Herr : forall r ov, f_spref (fx_fat (cf r ov false)) = SP_NONE.
+
+  Theorem cache_transparent_uri : forall ops c hs cU hsU now,
+    TInv vary_tuple cf c -> Forall (op_no_imsx ims_on prime) ops ->
+    Forall2 obsx_equiv
+      (runX hstate compute true ims_on true true fix_clear true true true sfilter parse_ims sanitize_ok prime
+            override negotiate vary_tuple vary_header clear_alias (c, hs) now ops)
+      (runX hstate compute false ims_on true true fix_clear true true true sfilter parse_ims sanitize_ok prime
+            override negotiate vary_tuple vary_header clear_alias (cU, hsU) now ops).
+  Proof.
+    exact (run_simx_uri hstate compute ims_on fix_clear sfilter parse_ims sanitize_ok prime override negotiate vary_tuple
+             vary_header clear_alias cf Hpure contract_uri Herr).
+  Qed.
+End C03uri.
+
+Theorem cache_hit_same_uri : forall (vary_tuple : request -> option (bytes * option bytes) -> tuple)
+    (cf : request -> option (bytes * option bytes) -> bool -> fatx) c now lr k e c1 v,
+  TInv vary_tuple cf c -> xlookup lr c now = ((k, Some e), c1) -> xv_find (v_tuple v) (ex_vars e) = Some v ->
+  exists r1 ov1, get_or_head (rq_method r1) = true /\ vary_tuple r1 ov1 = v_tuple v /\ v_resp v = cf r1 ov1 true /\
+                 rq_path (lookup_req r1 ov1) = rq_path lr /\
+                 (qmx (v_resp v) = true -> eff_query (lookup_req r1 ov1) = eff_query lr).
+Proof. exact hit_same_uri_x. Qed.
 
 (** before the repair (repo 9992768) the answer of an internal route (override URI of a Prime extension) was stored
     under the key of the requested page and then served for that page: the caching server answers "internal" where the
